@@ -54,7 +54,7 @@ def scopes(chk):
                             'TextPool': ['c', 't'], 'EnvNames': [], 'CmdNames': ['a'], 'MaxSib': 1, 'MaxArgs': 3, 'MaxDepth': 3}))
     sc.append(('envargs', {'Budget': 4 if quick else 5, 'TextPool': ['a', ' ', '['], 'ComPool': [], 'MathKinds': ['$'], 'MEnvNames': [],
                            'VerbNames': [], 'Leaves': [], 'ListNames': [], 'MaxSib': 2, 'MaxDepth': 3}))
-    sc.append(('lists', {'Budget': 5 if quick else 6, 'TextPool': ['a', ' ', '\n'], 'ComPool': ['c'], 'MathKinds': ['$'], 'MEnvNames': [],
+    sc.append(('lists', {'Budget': 5, 'TextPool': ['a', ' ', '\n'], 'ComPool': ['c'], 'MathKinds': ['$'], 'MEnvNames': [],
                          'VerbNames': [], 'Leaves': [], 'EnvNames': [], 'CmdNames': ['a'], 'MaxSib': 3, 'MaxDepth': 3, 'MaxArgs': 1}))
     return sc
 
